@@ -14,6 +14,11 @@ PREP = {"e2e.C01.roundtrip": "w.", "e2e.C07.corrupt": "w."}
 # "same conferr"): only the first word is compared with the model's answer
 FIRST_WORD_FNS = {"c08.twin", "c08.known", "c15.versions", "c15.known", "c02.closure", "c02.known", "c19.origin", "c09.doc", "c09.known"}
 
+# property module -> (modules the script imports, script run with `lake env lean --run`): prints `<name>=true|false`
+PRECHECK = {
+    "TableauVerif.Props.C05": (["TableauVerif.Model.Conc", "TableauVerif.Generated.Locks"], "Driver/PrecheckC05.lean"),
+}
+
 TRUSTED_BASE = [
     "Lean 4.33.0 kernel (thorough tier: leanchecker re-check of the compiled property modules)",
     "axioms per theorem as printed by #print axioms, restricted to propext / Classical.choice / Quot.sound (no sorry, no native_decide, no bv_decide, no added axiom)",
@@ -307,16 +312,19 @@ PROPS = {
         ],
     },
     "C07": {
-        "lean_modules": ["TableauVerif.Props.C07"],
-        "oracles": ["c07.position", "c07.desc", "c07.corrupt", "c07.skip", "tp.parse"],
+        "lean_modules": ["TableauVerif.Props.C07", "TableauVerif.Props.C07Header"],
+        "oracles": ["c07.position", "c07.desc", "c07.corrupt", "c07.skip", "tp.parse", "pg.errpos"],
         "streams": [
             ("corr.excel.position", 4000, 200000),
             ("corr.xerrors.newDesc", 6000, 300000),
             ("e2e.C07.corrupt", 5000, 200000),
             ("corr.confgen.tableParse", 6000, 200000),
+            ("corr.protogen.parseHeader", 8000, 200000),
+            ("spec.C07.headerPos", 8000, 200000),
         ],
         "assumptions": [
-            "modelled: excel.LetterAxis/Postion, xerrors.ErrorKV/WrapKV/Error(), xerrors.NewDesc",
+            "modelled: excel.LetterAxis/Postion, xerrors.ErrorKV/WrapKV/Error(), xerrors.NewDesc, the header cursor protogen's "
+            "table parser returns with an error (the column of NameCellPos / TypeCellPos)",
         ],
     },
     "C14": {
